@@ -124,6 +124,7 @@ class Algebra(object):
         self.notes = []
         self._pids = {}
         self._pid_poly = []
+        self._natoms = {}
         self.nonneg_oracle = None      # fn(term) -> bool; None: assumed (recorded)
         self.assumed_nonneg = set()
         self.gate_simplified = 0
@@ -162,6 +163,15 @@ class Algebra(object):
             return const(1)
         if c is tm.FALSE:
             return const(0)
+        if op in ("and", "or", "not", "ite") and not env:
+            n = self._natoms.get(c.id)
+            if n is None:
+                from .sym import _atoms
+                n = len(_atoms(c))
+                self._natoms[c.id] = n
+            if n > 6:
+                ck = ("c", c.id)
+                return self.atom(("ind", ck), False, "ind", (c, ck), c)
         if op == "and":
             r = const(1)
             for x in c.a:
@@ -185,8 +195,12 @@ class Algebra(object):
         cv = self.const_cond(c, env, lift)
         if cv is not None:
             return const(1 if cv else 0)
+        if op == "le" and len(c.a) == 2:
+            # a <= b  ==  not (b < a)
+            return padd(const(1), self.ind(tm.lt(c.a[1], c.a[0]), env, lift), -1)
         ck = self.cond_key(c, env, lift)
-        return self.atom(("ind", ck), False, "ind", (c, ck), c)
+        per = bool(env) or self.cond_perstep(c, env, lift) or _ck_perstep(self, ck)
+        return self.atom(("ind", ck), per, "ind", (c, ck), c)
 
     def atom_of(self, poly):
         """The Atom when poly is exactly one atom with coefficient 1."""
@@ -368,21 +382,28 @@ class Algebra(object):
         r = self.gate_simplify(c, pa, pb, env, lift, a, b)
         if r is not None:
             return r
-        if not env and not self.cond_perstep(c, env, lift):
-            # step-independent condition: b + [c]*(a - b)
-            return padd(pb, pmul(self.ind(c, env, lift), padd(pa, pb, -1)))
-        ck = self.cond_key(c, env, lift)
-        per = self.perstep_poly(pa) or self.perstep_poly(pb) or self.cond_perstep(c, env, lift)
-        # ite(c, common + a, common + b) = common + ite(c, a, b)
-        common = {}
-        for mono, cf in pa.m.items():
-            if pb.m.get(mono) == cf:
-                common[mono] = cf
-        if common:
-            cp = Poly(common)
-            ra, rb = padd(pa, cp, -1), padd(pb, cp, -1)
-            return padd(cp, self.ite_atom(c, ck, ra, rb, per))
-        return self.ite_atom(c, ck, pa, pb, per)
+        lm = self.load_match(c, pa, pb, env, lift)
+        if lm is not None:
+            return lm
+        # b + [c]*(a - b)   (indicator atoms are idempotent; per-step when the condition is)
+        return padd(pb, pmul(self.ind(c, env, lift), padd(pa, pb, -1)))
+
+    def load_match(self, c, pa, pb, env, lift):
+        """R7: ite(x <= 0, 1, (x + 1/x - 1)/(x + 1/x)) is one atom with range [1/2, 1]."""
+        if pa.const_value() != 1 or c.op != "le" or len(c.a) != 2 or c.a[1] is not tm.ZERO:
+            return None
+        f = self.pwx if lift else self.sx
+        try:
+            px = f(c.a[0], env)
+        except NotScalar:
+            return None
+        if px.is_zero():
+            return None
+        s_ = padd(px, self.inv(px))
+        want = pmul(padd(s_, const(-1)), self.inv(s_))
+        if want != pb:
+            return None
+        return self.atom(("lmatch", self.pid(px)), True, "lmatch", (px,))
 
     def ite_atom(self, c, ck, pa, pb, per):
         if pa == pb:
@@ -554,6 +575,97 @@ class Algebra(object):
                 return self.atom(("ite", ck, self.pid(sa), self.pid(sb)), False, "ite", (c, sa, sb, ck))
         return self.atom(("sumt", self.pid(p)), False, "sumt", (p,))
 
+    # ------------------------------------------------------------------ R4: Σ shares = 1
+    def cancel(self, p):
+        """(Σ_j m*q_j) * Q^-1 = m when Q is the atom standing for the sum Σ_j q_j (rule R4)."""
+        changed = True
+        rounds = 0
+        while changed and rounds < 6:
+            changed = False
+            rounds += 1
+            for aid in list(p.atoms()):
+                a = self.atoms[aid]
+                if a.kind != "poly":
+                    continue
+                q = a.parts[0]
+                groups = {}
+                other = {}
+                for mono, c in p.m.items():
+                    d = dict(mono)
+                    if d.get(aid) == -1:
+                        rest = tuple((x, w) for x, w in mono if x != aid)
+                        groups[rest] = c
+                    else:
+                        other[mono] = c
+                if not groups:
+                    continue
+                g = Poly(groups)
+                m = self.divide(g, q)
+                if m is not None:
+                    p = padd(Poly(other), m)
+                    changed = True
+                    break
+        return p
+
+    def divide(self, g, q):
+        """g / q when g = q * r for a polynomial r (term by term on the leading monomial)."""
+        r = Poly()
+        rem = g
+        qk = sorted(q.m.items(), key=lambda x: str(x[0]))
+        lead_m, lead_c = qk[0]
+        for _ in range(len(g.m) + 2):
+            if rem.is_zero():
+                return r
+            done = False
+            for mono, c in sorted(rem.m.items(), key=lambda x: str(x[0])):
+                d = dict(mono)
+                ok = True
+                for x, w in lead_m:
+                    if d.get(x, 0) < w and x not in IND:
+                        ok = False
+                        break
+                    if x in IND and x not in d:
+                        ok = False
+                        break
+                if not ok:
+                    continue
+                quo = dict(d)
+                for x, w in lead_m:
+                    if x in IND:
+                        continue       # idempotent: keep the indicator
+                    nw = quo[x] - w
+                    if nw == 0:
+                        del quo[x]
+                    else:
+                        quo[x] = nw
+                t = Poly({tuple(sorted(quo.items())): c / lead_c})
+                rem = padd(rem, pmul(q, t), -1)
+                r = padd(r, t)
+                done = True
+                break
+            if not done:
+                return None
+        return r if rem.is_zero() else None
+
+    def admit_thresholds(self, p, limit):
+        """Set to 1 the per-step indicators [c < X] with a positive literal c <= limit (the
+        absolute noise thresholds the property text admits; inputs are 0 or >= 0.01, A1)."""
+        n = 0
+        for aid in list(p.atoms()):
+            a = self.atoms.get(aid)
+            if a is None or a.kind != "ind":
+                continue
+            ck = a.parts[1]
+            if isinstance(ck, tuple) and ck and ck[0] == "lt0" and isinstance(ck[1], int):
+                d = self.poly_of_pid(ck[1])
+                cst = d.m.get((), 0)
+                if 0 < cst <= Fraction(limit).limit_denominator(10 ** 6) and all(
+                        v < 0 for k, v in d.m.items() if k != ()):
+                    from .order import psubst_all
+                    p = psubst_all(p, aid, const(1))
+                    n += 1
+        return p, n
+
     # ------------------------------------------------------------------ printing
     def show(self, p, depth=3):
         if p.is_zero():
@@ -589,6 +701,8 @@ class Algebra(object):
             return "|%s|" % self.show(a.parts[0], depth - 1)
         if k == "ind":
             return "[%s]" % tm.show(a.parts[0], 2)
+        if k == "lmatch":
+            return "f_match(%s)" % self.show(a.parts[0], depth - 1)
         return "a%d" % a.id
 
     # ------------------------------------------------------------------ queries
@@ -636,6 +750,18 @@ def _ek(v):
     if isinstance(v, tuple):
         return tuple(_ek(x) for x in v)
     return ("?",)
+
+
+def _ck_perstep(A, ck):
+    """A comparison key is per-step when the polynomial it compares is."""
+    if isinstance(ck, tuple) and ck:
+        if ck[0] in ("lt0", "le0", "eq0") and isinstance(ck[1], int):
+            return A.perstep_poly(A.poly_of_pid(ck[1]))
+        if ck[0] in ("and", "or", "not"):
+            return any(_ck_perstep(A, x) for x in ck[1:])
+        if ck[0] == "bound":
+            return True
+    return False
 
 
 def _has_bound(ck):
